@@ -21,13 +21,19 @@ import (
 type Factory struct {
 	Name string
 	New  func() (subscription.Store, func(), error)
+	// Reload (durable stores only) returns a new store instance built from what the back end holds for the given
+	// client ids, as a restarted broker does.
+	Reload func(clients []string) (subscription.Store, error)
+	// FailNext (durable stores only) makes the back end drop the connection at the next state-changing command.
+	FailNext func()
 }
 
 // ExtraFactories lets other packages (redis back end) register stores.
 var ExtraFactories []Factory
 
 type op struct {
-	Kind   string         // sub | unsub | unsuball
+	Kind   string         // sub | unsub | unsuball | reload
+	Fault  bool           `json:",omitempty"` // the back end fails during this operation: it must report an error and change nothing
 	Client string         `json:",omitempty"`
 	Subs   []refmodel.Sub `json:",omitempty"`
 	Topics []string       `json:",omitempty"`
@@ -43,6 +49,8 @@ func (o op) String() string {
 		return "sub(" + strings.Join(ss, ",") + ")"
 	case "unsub":
 		return "unsub(" + o.Client + ":" + strings.Join(o.Topics, ",") + ")"
+	case "reload":
+		return "reload"
 	}
 	return "unsuball(" + o.Client + ")"
 }
@@ -300,8 +308,62 @@ func (c *checker) checkAll(st subscription.Store, m *refmodel.SubTable, usedFilt
 }
 
 // apply executes one op on store and model, checking the direct results.
-func (c *checker) apply(st subscription.Store, m *refmodel.SubTable, o op, used map[string]bool) {
+func (c *checker) apply(stp *subscription.Store, m *refmodel.SubTable, o op, used map[string]bool) {
+	st := *stp
 	c.hist = append(c.hist, o)
+	if o.Kind == "reload" {
+		if c.fac.Reload == nil {
+			return
+		}
+		seen := map[string]bool{}
+		var ids []string
+		for _, h := range c.hist {
+			if h.Client != "" && !seen[h.Client] {
+				seen[h.Client] = true
+				ids = append(ids, h.Client)
+			}
+		}
+		ns, err := c.fac.Reload(ids)
+		if err != nil {
+			c.violation("reload.error", o.String(), err.Error(), "nil")
+			return
+		}
+		*stp = ns
+		c.r.Count("store_reloads_"+c.fac.Name, 1)
+		// the cumulative "total" counters are statistics of the process, not of the index: a new instance
+		// has counted exactly the subscriptions it loaded
+		m.Total = m.Current()
+		for cl := range m.ClientTotal {
+			m.ClientTotal[cl] = m.ClientCurrent(cl)
+			if m.ClientCurrent(cl) == 0 { // a client without subscriptions leaves no trace in the back end
+				delete(m.ClientTotal, cl)
+				delete(m.Known, cl)
+			}
+		}
+		return
+	}
+	if o.Fault && c.fac.FailNext != nil {
+		// only operations that reach the back end can fail there
+		c.fac.FailNext()
+		var err error
+		switch o.Kind {
+		case "sub":
+			gs := make([]*gmqtt.Subscription, len(o.Subs))
+			for i, s := range o.Subs {
+				gs[i] = toGmqtt(s)
+			}
+			_, err = st.Subscribe(o.Client, gs...)
+		case "unsub":
+			err = st.Unsubscribe(o.Client, o.Topics...)
+		case "unsuball":
+			err = st.UnsubscribeAll(o.Client)
+		}
+		c.r.Count("faulted_operations_"+c.fac.Name, 1)
+		if err == nil {
+			c.violation("fault.no_error:"+o.Kind, o.String(), "nil", "an error (the back end dropped the connection)")
+		}
+		return // the model does not change: neither may the store
+	}
 	switch o.Kind {
 	case "sub":
 		gs := make([]*gmqtt.Subscription, len(o.Subs))
@@ -363,7 +425,7 @@ func (c *checker) runHistory(ops []op, checkEvery bool) (states []string) {
 		}
 	}()
 	for i, o := range ops {
-		c.apply(st, m, o, used)
+		c.apply(&st, m, o, used)
 		if checkEvery || i == len(ops)-1 {
 			c.checkAll(st, m, used)
 		}
@@ -430,6 +492,13 @@ func randomHistory(rng *rand.Rand, u universe, n int) []op {
 			ops = append(ops, o)
 		default:
 			ops = append(ops, op{Kind: "unsuball", Client: cl})
+		}
+		// durable back ends only (ignored by the others): a failing back end, a restart
+		if rng.Intn(10) == 0 {
+			ops[len(ops)-1].Fault = true
+		}
+		if rng.Intn(8) == 0 {
+			ops = append(ops, op{Kind: "reload"})
 		}
 	}
 	return ops
@@ -595,7 +664,6 @@ func filterShape(f string) string {
 	}
 	return strings.Join(lv, "/")
 }
-
 
 // RunSharedStore is part (a) of C11: histories of joins and leaves of share groups
 // (many clients, many groups, overlapping filters, the same client in several
